@@ -19,17 +19,17 @@ var findings = []kit.Finding[Case]{
 	},
 	{
 		ID: "KF-C16-rescan", Clause: "C16.T1",
-		Desc: "text inserted by one pass is scanned by the later passes of the same run (variables, then loops, then conditionals, then images): a variable value holding {{#each ..}}, or used inside a loop and holding {{/each}} / {{this}} / {{@index}} / an item field placeholder; any value holding {{#if ..}}, or inserted inside a conditional and holding {{/if}} / {{else}}; any value holding {{#image ..}} or [IMAGE:..]",
+		Desc:    "text inserted by one pass is scanned by the later passes of the same run (variables, then loops, then conditionals, then images): a variable value holding {{#each ..}}, or used inside a loop and holding {{/each}} / {{this}} / {{@index}} / an item field placeholder; any value holding {{#if ..}}, or inserted inside a conditional and holding {{/if}} / {{else}}; any value holding {{#image ..}} or [IMAGE:..]",
 		Trigger: func(c Case, f kit.Failure) bool { return c.hasRescanClass("rescan:") },
 	},
 	{
 		ID: "KF-C16-rescan-fields", Clause: "C16.T1",
-		Desc: "inside a loop the item's placeholders are substituted one after the other over the whole body (this, @index, @first, @last, then each field in map order, inner loops before outer fields): a scalar item holding {{@index}}/{{@first}}/{{@last}}, or an item value holding the placeholder of a field of the same or an enclosing item, is substituted again",
+		Desc:    "inside a loop the item's placeholders are substituted one after the other over the whole body (this, @index, @first, @last, then each field in map order, inner loops before outer fields): a scalar item holding {{@index}}/{{@first}}/{{@last}}, or an item value holding the placeholder of a field of the same or an enclosing item, is substituted again",
 		Trigger: func(c Case, f kit.Failure) bool { return c.hasRescanClass("fields:") },
 	},
 	{
 		ID: "KF-C16-rescan-inherit", Clause: "C16.T1",
-		Desc: "for a derived template the whole pipeline runs again over the rendered text of its base: a value holding the placeholder of a supplied variable, {{#each ..}} or {{#block ..}} is interpreted on the second run",
+		Desc:    "for a derived template the whole pipeline runs again over the rendered text of its base: a value holding the placeholder of a supplied variable, {{#each ..}} or {{#block ..}} is interpreted on the second run",
 		Trigger: func(c Case, f kit.Failure) bool { return c.hasRescanClass("inherit:") },
 	},
 	{
@@ -44,5 +44,10 @@ var findings = []kit.Finding[Case]{
 			_, ip := expected(&c)
 			return ip.nestedAbsent
 		},
+	},
+	{
+		ID: "KF-C16-image-marker-spelled", Clause: "C16.T", // T0 (panic of the paragraph step), T1, T2
+		Desc:    "an image placeholder ({{#image w}} / [IMAGE:w]) that is not in the template but is spelled in the output by a value together with the literal text or the values next to it ('{{v}}image chart}}' with v = '{{#') is interpreted when the text is turned into paragraphs: the rest of the line is lost (expand only protects a marker that lies inside ONE value)",
+		Trigger: func(c Case, f kit.Failure) bool { return c.spellsImageMarker() },
 	},
 }
